@@ -466,7 +466,18 @@ namespace nmtools::view
         } else {
             // TODO: support ufunc datatype promotions
             using view_t = decorator_t<matmul_t, lhs_t, rhs_t>;
-            return view_t{{lhs,rhs}};
+            // for shapes that are only known at run time, so is their compatibility:
+            // mismatching contraction / batch extents yield Nothing (instead of unwrapping Nothing in the view)
+            const auto m_shape = index::shape_matmul(nmtools::shape<true>(lhs),nmtools::shape<true>(rhs));
+            if constexpr (meta::is_maybe_v<decltype(m_shape)>) {
+                using return_t = nmtools_maybe<view_t>;
+                return (has_value(m_shape)
+                    ? return_t{view_t{{lhs,rhs}}}
+                    : return_t{meta::Nothing}
+                );
+            } else {
+                return view_t{{lhs,rhs}};
+            }
         }
     } // matmul
 } // nmtools::view
